@@ -127,6 +127,43 @@ def instances(tier, rng):
     return out
 
 
+def spot(tier, rng):
+    from . import _ea_common as E
+    out = []
+    shapes = [(5, 5), (4, 7), (6, 6)] if tier == "quick" else [(5, 5), (4, 7), (7, 4), (6, 6), (5, 8), (7, 7), (3, 12)]
+    for (h, w) in shapes:
+        sp = E.spiral_path(h, w)
+        pats = []
+
+        def grid_of(cells):
+            g = [False] * (h * w)
+            for (y, x) in cells:
+                g[y * w + x] = True
+            return g
+        pats.append(grid_of(sp))                                  # long induced path: connected, a tree
+        pats.append(grid_of(sp[:len(sp) // 2] + sp[len(sp) // 2 + 1:]))   # the same with a gap: disconnected
+        ring = [(y, x) for y in range(h) for x in range(w) if y in (0, h - 1) or x in (0, w - 1)]
+        pats.append(grid_of(ring))                                # a cycle: connected, not a tree
+        pats.append(grid_of(ring[:-1]))
+        pats.append([True] * (h * w))
+        pats.append([False] * (h * w))
+        for _ in range(3):
+            pats.append([rng.random() < 0.6 for _ in range(h * w)])
+        for acyclic in (False, True):
+            out.append(dict(name="spot-grid%dx%d/ac%d" % (h, w, acyclic), form="grid", h=h, w=w, mode="vars", acyclic=acyclic,
+                            primitive=False, patterns=pats))
+    for n in ((12, 16) if tier == "quick" else (12, 16, 24, 30)):
+        for nm, es in (("path", [(i, i + 1) for i in range(n - 1)]), ("cycle", [(i, (i + 1) % n) for i in range(n)]),
+                       ("midpath", [(2 * i % n if 2 * i < n else (2 * (n - 1 - i) + 1), 0) for i in range(0)])):
+            if not es:
+                continue
+            pats = [[True] * n, [True] * (n // 2) + [False] + [True] * (n - n // 2 - 1), [i % 3 != 0 for i in range(n)], [False] * n]
+            for acyclic in (False, True):
+                out.append(dict(name="spot-%s%d/ac%d" % (nm, n, acyclic), form="graph", n=n, edges=es, mode="vars", acyclic=acyclic,
+                                primitive=False, patterns=pats))
+    return out
+
+
 def key_of(d, kind):
     return "%s,%s,acyclic=%d,primitive=%d,%s" % (d["form"], d["mode"], d["acyclic"], d["primitive"], kind)
 
@@ -141,6 +178,10 @@ def run(tier, only=None):
     tmo = 60 if tier == "quick" else 240
     results = query.run_pool(MOD, descs, tmo)
     query.absorb(rep, MOD, results, key_of, "active_vertices_connected")
+    sd = spot(tier, rng)
+    if only:
+        sd = [d for d in sd if only in d["name"]]
+    query.run_spot(rep, MOD, sd, key_of, "active_vertices_connected", tmo)
     rep.functions = ["cspuz.graph.active_vertices_connected", "cspuz.graph._active_vertices_connected",
                      "cspuz.graph._grid_graph", "cspuz.graph.Graph.add_edge", "cspuz.constraints.count_true/then",
                      "cspuz.solver.Solver.ensure/bool_array/int_array"]
@@ -149,7 +190,10 @@ def run(tier, only=None):
         "grids": "all h*w <= %d%s" % (9 if tier == "quick" else 12, "" if tier == "quick" else " + 4x4, 1x14, 2x7"),
         "operand styles": "variables, ~v, a&b, a^b, mix of Python constants / variables / (a | i>=1)",
         "per-query timeout_s": tmo}
-    rep.outside = ["graphs / grids larger than listed", "0-vertex graph (Solver.int_array(0,0,-1) raises)"]
+    rep.bounds["spot mode"] = ("grids up to 7x7 / 3x12 and path / cycle graphs up to 30 vertices with is_active PINNED to adversarial patterns "
+                                "(spiral induced path, the same with a gap, perimeter ring, all, none, seeded random); all rank/root "
+                                "assignments symbolic - a sample of patterns, not all 2^n")
+    rep.outside = ["graphs / grids larger than listed (beyond the exists-forall bound only the pinned spot patterns are decided)", "0-vertex graph (Solver.int_array(0,0,-1) raises)"]
     rep.assumptions = ["reference translator vlib/ea/ref.py gives the ordinary meaning of the DSL operators",
                        "spec library vlib/ea/spec.py (closure-matrix connectivity) is the meaning of 'connected'/'tree'",
                        "z3 5.1.0 is sound (quantified completeness queries use its quantifier engine)",
